@@ -205,14 +205,15 @@ pub fn apply_change_to_db_try_fix_conflicts(
 }
 
 pub fn unwatch_key(key: &String, sender: &Sender<String>, db: &Database) -> Response {
-    let mut senders = get_senders(&key, &db.watchers);
+    #[cfg(feature = "verif")]
+    crate::verif::yield_point("unwatch_key.watchers.write");
+    // Remove the sender in place: copying the list and writing it back later would drop a
+    // watcher another client registered in between
+    let mut watchers = db.watchers.map.write().expect("db.watchers.map.lock");
+    let senders = watchers.entry(key.clone()).or_insert_with(Vec::new);
     log::debug!("Senders before unwatch {:?}", senders.len());
     senders.retain(|x| !x.same_receiver(&sender));
     log::debug!("Senders after unwatch {:?}", senders.len());
-    #[cfg(feature = "verif")]
-    crate::verif::yield_point("unwatch_key.watchers.write");
-    let mut watchers = db.watchers.map.write().expect("db.watchers.map.lock");
-    watchers.insert(key.clone(), senders);
     Response::Ok {}
 }
 
